@@ -39,7 +39,7 @@ package keeper
 //@   fails_if [C14] #c14-price-unavailable: vf0 && cr0.1 != nil
 //@   ensures [C01] #c01-collateral-handed-over: result == nil && vf0 && gone ==> bal(modaddr("vaultV1"), din) == old(bal(modaddr("vaultV1"), din)) - v0.AmountIn && bal(modaddr("auctionsV2"), din) == old(bal(modaddr("auctionsV2"), din)) + v0.AmountIn
 //@   ensures [C01] #c01-count: result == nil && vf0 ==> k.vault.GetLengthOfVault(ctx) == old(k.vault.GetLengthOfVault(ctx)) - ite(gone, 1, 0)
-//@   ensures slow [C09] #c09-one-locked-vault: result == nil && vf0 && gone ==> k.GetLockedVaultID(ctx) == old(k.GetLockedVaultID(ctx)) + 1
+//@   ensures [C09] slow #c09-one-locked-vault: result == nil && vf0 && gone ==> k.GetLockedVaultID(ctx) == old(k.GetLockedVaultID(ctx)) + 1
 //@   ensures [C01] #c01-frame-vaults: forall j :: j != vaultID ==> k.vault.GetVault(ctx, j) == old(k.vault.GetVault(ctx, j))
 
 // The borrow sweep of the begin-blocker (C15, C09): it never panics, its only unprotected write is its own offset record
